@@ -496,6 +496,186 @@ Section Impl.
     end.
 
   (* --------------------------------------------------------------------------------------- *)
+  (* LYD_VALIDATE_MULTI_ERROR: LY_VAL_ERR_GOTO records LY_EVALID and goes on                   *)
+  (* --------------------------------------------------------------------------------------- *)
+  (* the same code with every "return on a validation error" replaced by "remember it and continue": the functions
+     return what they computed and the errors in the order they were logged (the call returns LY_EVALID iff the list is
+     not empty; ly_err_last() is the last one) *)
+  Definition validate_cases_m (cs : list stree) (f : vforest) : vforest * list verr :=
+    match cases_scan f cs None None with
+    | RErr e => (f, [e])                     (* lyd_validate_cases returned: no auto-deletion for this choice *)
+    | ROk (Some o, Some _) => (filter (fun n => negb (in_sub o n)) f, [])
+    | ROk _ => (f, [])
+    end.
+
+  Fixpoint vchoices_m (t : stree) (f : vforest) {struct t} : vforest * list verr :=
+    match t with
+    | TNode _ _ => (f, [])
+    | TChoice _ _ cs =>
+        match f with
+        | [] => (f, [])
+        | _ => let '(f', es) := validate_cases_m cs f in
+               fold_left (fun acc c => let '(g, e1) := acc in let '(g', e2) := vchoices_m c g in (g', e1 ++ e2)) cs (f', es)
+        end
+    | TCase _ _ ch =>
+        fold_left (fun acc c => let '(g, e1) := acc in let '(g', e2) := vchoices_m c g in (g', e1 ++ e2)) ch (f, [])
+    end.
+
+  Fixpoint vloop_m (l : list stree) (fuel : nat) (done todo : vforest) (last : option sid) {struct fuel} :
+    vforest * list verr :=
+    match fuel with
+    | O => match todo with [] => (rev done, []) | _ => (rev done ++ todo, [EFuel]) end
+    | S k =>
+        match todo with
+        | [] => (rev done, [])
+        | n :: r =>
+            if negb (vn_new n || vn_dflt n) then vloop_m l k (n :: done) r last
+            else
+              let s := vn_sid n in
+              let autodel := has_default s && negb (opt_is last s) && vn_new n in
+              let last' := if autodel then Some s else last in
+              let all := rev done ++ n :: r in
+              let found := existsb (fun x => (vn_sid x =? s) && negb (vn_dflt x)) all in
+              let '(done1, r1, gone) :=
+                if autodel then
+                  if found then (kill_dflts s done, kill_dflts s r, vn_dflt n)
+                  else
+                    match kind vs s with
+                    | KLeafList => (done, r, false)
+                    | _ =>
+                        match kill_first_old s (rev done) with
+                        | Some d' => (rev d', r, false)
+                        | None => match kill_first_old s r with Some r' => (done, r', false) | None => (done, r, false) end
+                        end
+                    end
+                else (done, r, false) in
+              if gone then vloop_m l k done1 r1 last'
+              else
+                let es := if vn_new n && dup_of (rev done1 ++ r1) n then [EDup] else [] in
+                let n' := vn_clear_new n in
+                let '(res, es') :=
+                  if vn_dflt n && stale_case_dflt l (rev done1 ++ n' :: r1) n then vloop_m l k done1 r1 last'
+                  else vloop_m l k (n' :: done1) r1 last' in
+                (res, es ++ es')
+        end
+    end.
+
+  Definition vlevel_m (l : list stree) (f : vforest) : vforest * list verr :=
+    let '(f1, e1) := fold_left (fun acc c => let '(g, ea) := acc in let '(g', eb) := vchoices_m c g in (g', ea ++ eb)) l (f, []) in
+    let '(f2, e2) := vloop_m l (length f1) [] f1 None in
+    (f2, e1 ++ e2).
+
+  Fixpoint vnew_m (fuel : nat) (l : list stree) (f : vforest) {struct fuel} : vforest * list verr :=
+    match fuel with
+    | O => (f, [EFuel])
+    | S k =>
+        let '(f', e1) := vlevel_m l f in
+        let rs := map (fun n => match n with
+                                | VN s v d w m ch => let '(ch', e) := vnew_m k (st_children l s) ch in (VN s v d w m ch', e)
+                                end) f' in
+        (map fst rs, e1 ++ flat_map snd rs)
+    end.
+
+  (* the final stage is a sequence of checks without side effects: every check runs *)
+  Definition elist (r : vres) : list verr := match r with VOk => [] | VErr e => [e] end.
+  Definition first_err (es : list verr) : vres := match es with [] => VOk | e :: _ => VErr e end.
+
+  Definition sr_node_m (f : forest) (t : stree) : list verr :=
+    match t with
+    | TNode s ch =>
+        match kind vs s with
+        | KList =>
+            elist (match si_min (info vs s), si_max (info vs s) with 0, None => VOk | _, _ => minmax f s end) ++
+            elist (uniq_check ch f s)
+        | _ => elist (sr_node f t)
+        end
+    | _ => []
+    end.
+
+  Fixpoint sr_choice_m (f : forest) (t : stree) {struct t} : list verr :=
+    match t with
+    | TChoice _ m cs =>
+        elist (chk (negb m || existsb (sub_has_data f) cs) ENoMandChoice) ++
+        (fix first_case (l : list stree) : list verr :=
+           match l with
+           | [] => []
+           | c :: r =>
+               if sub_has_data f c then
+                 match c with
+                 | TCase _ _ ch => flat_map (sr_choice_m f) ch ++ flat_map (sr_node_m f) ch
+                 | _ => []
+                 end
+               else first_case r
+           end) cs
+    | _ => []
+    end.
+
+  Definition schema_r_m (f : forest) (l : list stree) : list verr :=
+    flat_map (sr_choice_m f) l ++ flat_map (sr_node_m f) l.
+
+  Fixpoint vf_m (t : stree) {struct t} : list verr :=
+    match t with
+    | TNode s ch => if is_npc s then schema_r_m [] ch ++ flat_map vf_m ch else []
+    | TChoice _ _ cs => flat_map (fun c => match c with TCase _ true ch => flat_map vf_m ch | _ => [] end) cs
+    | TCase _ _ _ => []
+    end.
+
+  Section VisitM.
+    Variable rec : dnode -> list verr.
+    Fixpoint visit_m (c : forest) (virt : list stree) : list verr :=
+      match c with
+      | [] => flat_map vf_m virt
+      | x :: r =>
+          flat_map vf_m (filter (fun t => st_sid t <? d_sid x) virt) ++
+          (rec x ++ visit_m r (filter (fun t => negb (st_sid t <? d_sid x)) virt))
+      end.
+  End VisitM.
+
+  Fixpoint final_node_m (l : list stree) (n : dnode) {struct n} : list verr :=
+    match n with
+    | DN s _ _ _ ch =>
+        let l' := st_children l s in
+        schema_r_m ch l' ++ visit_m (final_node_m l') ch (flat_map (npv ch) l')
+    end.
+
+  Definition final_top_m (f : forest) : list verr :=
+    let l := vs_tree vs in
+    schema_r_m f l ++ visit_m (final_node_m l) f (flat_map (npv f) l).
+
+  (* lyd_validate_module(..., LYD_VALIDATE_MULTI_ERROR): the errors in the order they are logged *)
+  Definition impl_validate_multi (f : vforest) : list verr :=
+    let '(f', e1) := vnew_m (S (vfsize f)) (vs_tree vs) f in
+    e1 ++ final_top_m (map erase f').
+
+  (* --------------------------------------------------------------------------------------- *)
+  (* histories: a tree whose un-flagged part was validated before                              *)
+  (* --------------------------------------------------------------------------------------- *)
+  (* what validation leaves behind and what the editing API keeps: the nodes NOT flagged LYD_NEW are free of duplicates
+     among themselves, belong to at most one case per choice, and data flagged new do not sit in another case than the
+     old data of a choice (then the old case would be auto-deleted: the result, not the input, is what gets validated);
+     no node is flagged LYD_DEFAULT (auto-deletion of defaults is outside). Nodes flagged new are arbitrary. *)
+  Definition vconf (a b : vnode) : bool := negb (dup_inst (vs_info vs) (vn_sid a)) && same_vinst a b.
+  Definition old_free (g : vforest) : bool :=
+    pairwise (fun a b => negb (negb (vn_new a) && negb (vn_new b) && vconf a b)) g.
+  Definition case_new (g : vforest) (c : stree) : bool := existsb (fun n => in_sub c n && vn_new n) g.
+  Definition case_old (g : vforest) (c : stree) : bool := existsb (in_sub c) g && negb (case_new g c).
+  Fixpoint hist_case_t (g : vforest) (t : stree) : bool :=
+    match t with
+    | TNode _ _ => true
+    | TChoice _ _ cs =>
+        (length (filter (case_old g) cs) <=? 1)%nat &&
+        (match filter (case_new g) cs, filter (case_old g) cs with _ :: _, _ :: _ => false | _, _ => true end) &&
+        forallb (hist_case_t g) cs
+    | TCase _ _ ch => forallb (hist_case_t g) ch
+    end.
+  Definition hist_level (l : list stree) (g : vforest) : bool := old_free g && forallb (hist_case_t g) l.
+  Fixpoint hist_node (l : list stree) (n : vnode) {struct n} : bool :=
+    match n with
+    | VN s _ d _ _ ch => negb d && hist_level (st_children l s) ch && forallb (hist_node (st_children l s)) ch
+    end.
+  Definition hist_ok (g : vforest) : bool := hist_level (vs_tree vs) g && forallb (hist_node (vs_tree vs)) g.
+
+  (* --------------------------------------------------------------------------------------- *)
   (* parsing with validation                                                                   *)
   (* --------------------------------------------------------------------------------------- *)
   Variable ty : sid -> bytes -> bool.
@@ -542,3 +722,24 @@ Definition report (e : verr) : N * N * bytes := (7, 9, apptag e).
    non-presence container has a child; every node is flagged new (mark_new) *)
 Definition fresh (vs : vschema) (f : forest) : bool := nodflt f && no_empty_np vs f.
 
+
+(* ------------------------------------------------------------------------------------------- *)
+(* identityref with several bases (plugins_types/identityref.c identityref_check_base,           *)
+(* plugins_types.c lyplg_type_identity_isderived) - a type predicate for type_ok                  *)
+(* ------------------------------------------------------------------------------------------- *)
+(* the compiled identities: an edge (b, d) says that identity d has a base statement naming b, i.e. d is in the
+   lysc_ident.derived array of b *)
+Definition idedges := list (N * N).
+Definition id_derived (E : idedges) (b : N) : list N := map snd (filter (fun e => fst e =? b) E).
+
+(* lyplg_type_identity_isderived(base, der): der is in base->derived or derived from one of them (the C recursion ends
+   because the compiler rejects circular bases; fuel = number of edges suffices then: ValidP.isderived_iff) *)
+Fixpoint isderived (E : idedges) (fuel : nat) (base der : N) : bool :=
+  match fuel with
+  | O => false
+  | S k => existsb (fun d => (d =? der) || isderived E k d der) (id_derived E base)
+  end.
+
+(* identityref_check_base: the identity must be derived from ALL the bases of the type (RFC 7950 9.10.2) *)
+Definition idref_check (E : idedges) (bases : list N) (ident : N) : bool :=
+  forallb (fun b => isderived E (length E) b ident) bases.
